@@ -9,5 +9,5 @@ Proof. vm_compute. reflexivity. Qed.
 
 Lemma gate_model_fastclose :
   map (gate_model nack_responder_fastclose_xcfg) [0; 1; 2; 3] =
-  [[1; 0; 0; 0; 0; 0; 0; 0]; [1; 1; 0; 1; 0; 0; 0; 1]; [1; 0; 1; 1; 0; 0; 0; 1]; [1; 1; 1; 1; 0; 0; 0; 1]].
+  [[1; 0; 0; 0; 0; 0; 0; 0; 0; 0]; [1; 1; 0; 1; 0; 0; 0; 1; 0; 0]; [1; 0; 1; 1; 0; 0; 0; 1; 0; 0]; [1; 1; 1; 1; 0; 0; 0; 1; 0; 0]].
 Proof. vm_compute. reflexivity. Qed.
